@@ -56,6 +56,8 @@ def eval_bool(e, env, atoms=None):
         if v is _NOVAL:
             return UNKNOWN
         targ = _table_entry(e.args[1], env) or e.args[1]
+        if isinstance(targ, ast.Name) and isinstance(env.get(targ.id), _Ast):
+            targ = env[targ.id].node
         tnames = [ast.unparse(t) for t in (targ.elts if isinstance(targ, ast.Tuple) else [targ])]
         known = {"list": list, "dict": dict, "str": str, "tuple": tuple, "int": int, "bool": bool, "float": float, "bytes": bytes}
         if all(t in known for t in tnames):
@@ -66,6 +68,10 @@ def eval_bool(e, env, atoms=None):
         return UNKNOWN if v is _NOVAL else bool(v)
     if isinstance(e, ast.Constant):
         return bool(e.value)
+    if isinstance(e, ast.Call) and isinstance(e.func, ast.Name) and isinstance(env.get(e.func.id), _Ast):
+        applied = _apply_kept(e, env)
+        if applied is not e:
+            return eval_bool(applied, env, atoms)
     if isinstance(e, ast.Call) and HOOK.get("call") is not None:
         return HOOK["call"](e, env, atoms)
     return UNKNOWN
@@ -97,6 +103,8 @@ def program_call_evaluator(program, modules, max_depth=3, want_value=False):
             v = value_of(a, env)
             if v is not _NOVAL and v is not _RAISES:
                 env2[pn] = v
+            elif v is _NOVAL and (isinstance(a, ast.Name) and a.id in ("list", "dict", "str", "tuple", "int", "bool", "float", "bytes") or (isinstance(a, ast.Tuple) and all(isinstance(x, ast.Name) for x in a.elts))):
+                env2[pn] = _Ast(a)  # a type passed as an argument
         for pn, d in zip(params[len(params) - len(f.node.args.defaults):], f.node.args.defaults):
             if pn not in env2 and params.index(pn) >= len(call.args) and isinstance(d, ast.Constant):
                 env2[pn] = d.value
@@ -164,7 +172,10 @@ def value_of(e, env):
         if k is _NOVAL or isinstance(k, list) or not isinstance(tbl, dict):
             return _NOVAL
         if k in tbl:
-            return value_of(tbl[k], env)
+            v = value_of(tbl[k], env) if isinstance(tbl[k], ast.AST) else tbl[k]
+            if v is _NOVAL and isinstance(tbl[k], (ast.Name, ast.Call, ast.Lambda, ast.Attribute)) and not (isinstance(tbl[k], ast.Name) and tbl[k].id in env):
+                return _Ast(tbl[k])  # a function stored in the table
+            return v
         return value_of(e.args[1], env) if len(e.args) > 1 else None
     if isinstance(e, ast.Subscript) and isinstance(e.value, ast.Name) and isinstance(env.get(e.value.id), dict):
         k = value_of(e.slice, env)
@@ -241,6 +252,8 @@ def _apply_kept(expr, env):
         arg = expr.args[0]
         if isinstance(fn, ast.Name):
             return ast.copy_location(ast.Call(func=fn, args=[arg], keywords=[]), expr)
+        if isinstance(fn, ast.Call) and ast.unparse(fn.func) in ("partial", "functools.partial") and fn.args:
+            return ast.copy_location(ast.Call(func=fn.args[0], args=list(fn.args[1:]) + [arg], keywords=list(fn.keywords)), expr)
         if isinstance(fn, ast.Call) and ast.unparse(fn.func) in ("methodcaller", "operator.methodcaller") and fn.args and isinstance(fn.args[0], ast.Constant) and isinstance(fn.args[0].value, str):
             return ast.copy_location(ast.Call(func=ast.Attribute(value=arg, attr=fn.args[0].value, ctx=ast.Load()), args=list(fn.args[1:]), keywords=list(fn.keywords)), expr)
         if isinstance(fn, ast.Lambda) and len(fn.args.args) == 1 and not fn.args.defaults:
